@@ -84,6 +84,19 @@ struct Perturb {
         if (r < 252) { sched_yield(); return; }
         for (volatile int i = 0; i < 20000; i++) {}
     }
+    // end of an atomic bracket (the releasing store / the CAS of a lock word has just become visible): level 2 holds the thread
+    // here for 20-80 us half of the time, so that whatever it still does "after the release" happens after other vCPUs reacted
+    static void bracket_end() {
+        int lv = level().load(std::memory_order_relaxed);
+        if (lv < 2) { maybe(); return; }
+        static thread_local uint64_t s = 0;
+        if (!s) s = seed().load() * 0xD1B54A32D192ED03ull + (uint64_t)pthread_self();
+        s ^= s << 13; s ^= s >> 7; s ^= s << 17;
+        if (s & 1) return;
+        timespec a, b; clock_gettime(CLOCK_MONOTONIC, &a);
+        uint64_t ns = 20000 + ((s >> 8) % 60000);
+        do { clock_gettime(CLOCK_MONOTONIC, &b); } while ((uint64_t)(b.tv_sec - a.tv_sec) * 1000000000ull + b.tv_nsec - a.tv_nsec < ns);
+    }
 };
 
 struct Worker {
@@ -158,7 +171,7 @@ inline int64_t rel(uint64_t ts) { return ts == (uint64_t)-1 ? -1 : (ts < t0() ? 
 inline void hook_lock(int on) {
     auto& s = vt::sink();
     if (on) { s.lock(); in_bracket() = 1; }
-    else { in_bracket() = 0; s.unlock(); }
+    else { in_bracket() = 0; s.unlock(); Perturb::bracket_end(); }
 }
 inline void hook_emit(const std::string& j) {
     auto& s = vt::sink();
